@@ -219,6 +219,13 @@ def check_builders(facts, tr, rep, crate, rule):
                 bad = "default" in kinds and not ({"self", "param"} & kinds)
                 if bad and type_changing and generic_field:
                     continue      # a field whose type changes with the builder's type cannot be carried over
+                # a type-changing setter rebuilds the builder field by field: an option of unchanged type that is written
+                # with a constant there (instead of `self.f`) is silently reset to that constant
+                if type_changing and kinds == {"const"} and not generic_field:
+                    rep.ob(rule, skey(b, "setter-reset." + f), False, "%s:%d" % (b.span["file"], b.span["line"]),
+                           "builder method `%s`, which rebuilds the builder with another type parameter, sets `%s` to a constant instead of "
+                           "carrying over `self.%s`: a value configured before this call is silently reset (the result depends on the order "
+                           "of the builder calls)" % (b.name, f, f))
                 mixes = "self-other" in kinds and "param" not in kinds and "self-whole" not in kinds
                 if mixes:
                     rep.ob(rule, skey(b, "setter-mix." + f), False, "%s:%d" % (b.span["file"], b.span["line"]),
